@@ -4,18 +4,18 @@
 # and /verif): patch applies to /repo's HEAD, demo fails with it, demo passes without it, repository suite passes with it.
 # Input: /tmp/seed/<id>.out/{patch.diff,demo/<demo-file-name>}. Log: /tmp/seed/<id>.out/confirm.log
 id="$1"; crate="$2"; demo="$3"; shift 3
-OUT=/tmp/seed/$id.out; WT=/var/tmp/vconfirm/wt; L=$OUT/confirm.log
+OUT=/tmp/seed/$id.out; P="${PATCH:-/tmp/seed/$id.out/patch.diff}"; WT=/var/tmp/vconfirm/wt; L=$OUT/confirm.log
 exec 9>/var/tmp/vconfirm.lock; flock 9
 mkdir -p /var/tmp/vconfirm
 if [ ! -d $WT ]; then git -C /repo worktree add --detach $WT HEAD >/dev/null 2>&1 || exit 2; fi
 cd $WT && git checkout -q --detach "$(git -C /repo rev-parse HEAD)" && git checkout -q -- . && git clean -qfd -e target
 : > $L
-git apply --check $OUT/patch.diff 2>>$L || { echo "RESULT $id patch-does-not-apply" | tee -a $L; exit 1; }
+git apply --check $P 2>>$L || { echo "RESULT $id patch-does-not-apply" | tee -a $L; exit 1; }
 tname="${demo%.rs}"
 cp $OUT/demo/$demo crates/$crate/tests/$demo
 # without the change
 cargo test --offline -p $crate --test $tname "$@" > $OUT/confirm.demo_without.log 2>&1; rc_without=$?
-git apply $OUT/patch.diff
+git apply $P
 cargo test --offline -p $crate --test $tname "$@" > $OUT/confirm.demo_with.log 2>&1; rc_with=$?
 rm -f crates/$crate/tests/$demo
 if [ "${SKIP_SUITE:-0}" = 1 ]; then suite="skipped"; else
